@@ -189,6 +189,14 @@ static void c09_case (long idx, vf_rng *r)
     if (plain8888) { base.op = op = PIXMAN_OP_OVER; rq_image *im3[3] = { &base.src, &base.mask, &base.dst };
         for (int i = 0; i < 3; i++) { rq_image *im = im3[i]; int w0 = base.dst.w, h0 = base.dst.h; memset (im, 0, sizeof *im); im->kind = RQ_BITS; im->fmt = PIXMAN_a8r8g8b8; im->w = w0 > 0 ? w0 : 8; im->h = h0 > 0 ? h0 : 2; im->tr_class = TR_NONE; pixman_transform_init_identity (&im->tr); im->filter = PIXMAN_FILTER_NEAREST; im->pixseed = vf_next (r); }
         base.sx = base.sy = base.mx = base.my = base.dx = base.dy = 0; base.w = base.dst.w; base.h = base.dst.h; base.cover = 1; }
+    /* a fifth of the source cases: an untransformed source that covers the request, drawn through an untransformed a8 mask onto a 32- or 16-bit
+     * destination - the pairing for which every implementation level (C, MMX, SSE2) has its own routine that treats alpha-less sources specially */
+    int plainsrc = role == 0 && vf_chance (r, 1, 5);
+    if (plainsrc) { static const pixman_op_t po[] = { PIXMAN_OP_OVER, PIXMAN_OP_OVER, PIXMAN_OP_OVER, PIXMAN_OP_SRC, PIXMAN_OP_ADD, PIXMAN_OP_IN, PIXMAN_OP_OUT_REVERSE }; base.op = op = VF_PICK (r, po);
+        static const pixman_format_code_t pd[] = { PIXMAN_a8r8g8b8, PIXMAN_x8r8g8b8, PIXMAN_r5g6b5, PIXMAN_a8b8g8r8, PIXMAN_x8b8g8r8 };
+        int w0 = base.dst.w > 0 ? base.dst.w : 8, h0 = base.dst.h > 0 ? base.dst.h : 2; rq_image *im3[3] = { &base.src, &base.mask, &base.dst };
+        for (int i = 0; i < 3; i++) { rq_image *im = im3[i]; memset (im, 0, sizeof *im); im->kind = RQ_BITS; im->fmt = i == 1 ? PIXMAN_a8 : i == 2 ? VF_PICK (r, pd) : PIXMAN_x8r8g8b8; im->w = w0; im->h = h0; im->tr_class = TR_NONE; pixman_transform_init_identity (&im->tr); im->filter = PIXMAN_FILTER_NEAREST; im->pixseed = vf_next (r); im->pixstyle = i == 1 ? 2 : 0; }
+        base.has_mask = vf_chance (r, 4, 5); base.sx = base.sy = base.mx = base.my = base.dx = base.dy = 0; base.w = w0; base.h = h0; base.cover = 1; vf_count ("plain_source_through_a8_mask", 1); }
     rq_image *target = role == 0 ? &base.src : role == 1 ? &base.mask : &base.dst;
     if (target->kind != RQ_BITS) { target->kind = RQ_BITS; target->w = (int)vf_range (r, 1, 30); target->h = (int)vf_range (r, 1, 8); target->tr_class = TR_NONE; pixman_transform_init_identity (&target->tr); target->filter = PIXMAN_FILTER_NEAREST; target->repeat = (int)(vf_next (r) % 4); }
     /* user kernels need not be normalised: give separable tables a gain != 1 now and then */
@@ -211,7 +219,7 @@ static void c09_case (long idx, vf_rng *r)
     uint64_t cseed = vf_next (r);
     /* which presentations take part */
     int pres[4], np = 0; int constant = 0, use565 = 0;
-    int group = (int)(vf_next (r) % (role == 2 ? 1 : 3)); if (plain8888) group = 0;
+    int group = (int)(vf_next (r) % (role == 2 ? 1 : 3)); if (plain8888) group = 0; if (plainsrc) group = (int)(vf_next (r) % 2);
     if (group == 0) { pres[np++] = P_X888; pres[np++] = P_A888_FF; }
     else if (group == 1) {
         use565 = 1;
